@@ -5,9 +5,13 @@ pub fn to_int(&self) -> Rounded<IBig>
         B >= 2,
         !(self.repr.significand.v() == 0 && self.repr.exponent != 0),          // finite (documented panic otherwise)
         self.repr.significand.v() == 0 || self.repr.significand.v() % (B as int) != 0,     // normalized (invariant of Repr::new)
-        // machine ranges (memory limits; overflow of isize in `exponent + digits` is outside this contract)
-        -0x1000_0000_0000_0000 < self.repr.exponent,
-        ndigits(B as int, self.repr.significand.v()) < 0x1000_0000_0000_0000,
+        // machine ranges: `-exponent` fits isize (overflow of isize is outside this contract), fewer than 2^56 digits
+        // (memory limit; `digits_ub() as isize` does not wrap)
+        isize::MIN < self.repr.exponent,
+        ndigits(B as int, self.repr.significand.v()) < 0x100_0000_0000_0000,
+        // resource limit: exponent overflow is a documented panic (C16), not modelled: `shl_digits` by `exponent` digits
+        // computes the bit position `exponent * log2(B)` in usize
+        self.repr.exponent >= 0 ==> pos_room(self.repr.exponent as int),
     ensures
         // C10: Exact iff the value is an integer (for a normalized float: iff exponent >= 0), and then it is the value
         self.repr.exponent >= 0 ==> (ret matches Approximation::Exact(i)
